@@ -16,8 +16,8 @@ CONSTANTS KindA, InitA, KindB, InitB, MaxElems, Credits, MaxGrants, HasPub, LibS
 VARIABLES mon, viol, dA, dB
 vars2 == <<mon, viol, dA, dB>>
 
-A == INSTANCE RSocketMC WITH Kind <- KindA, Init_ <- InitA, Slot <- 0, SidOff <- 0, d <- dA
-B == INSTANCE RSocketMC WITH Kind <- KindB, Init_ <- InitB, Slot <- 1, SidOff <- (IF InitA = InitB THEN 2 ELSE 0), d <- dB
+A == INSTANCE RSocketMC WITH Kind <- KindA, Init_ <- InitA, Slot <- 0, SidOff <- 0, AsImplemented <- FALSE, d <- dA
+B == INSTANCE RSocketMC WITH Kind <- KindB, Init_ <- InitB, Slot <- 1, SidOff <- (IF InitA = InitB THEN 2 ELSE 0), AsImplemented <- FALSE, d <- dB
 
 Init2 == /\ mon = A!Mon0 /\ viol = {} /\ dA = A!D0 /\ dB = B!D0
 
